@@ -501,3 +501,68 @@ Proof.
           (conj tex_gc_enabled (conj tex_collect (conj tex_recreate tex_all_dropped)))))))).
 Qed.
 Print Assumptions C05_term_example.
+
+(* ---- package C02s / gap B: the return value of a collection; the collection of a LIFTED SNAPSHOT
+        (proved in Mgr/ConcGcCount.v).  The driver ocaml/c05s_main.ml lifts the snapshot taken
+        before every explicit gc() with the extracted [of_snap] (handles = tokens of thread 0,
+        the ZBDD manager's chain edges = [extra] = tokens of thread 1), evaluates [cinv_b] on it,
+        runs the extracted [collect] and compares ids, counts and gc()'s return value with the
+        snapshot taken afterwards. *)
+From OxiVerif Require Import Mgr.ConcGcCount.
+
+(* the ids stored after a collection = the stored ids the reachability test accepts *)
+Theorem C05_sm_collect_keys : forall k terms nl s, CInv k terms nl s ->
+  NoDup (map fst (cn (collect k terms nl s))) /\
+  forall id, In id (map fst (cn (collect k terms nl s))) <-> In id (survivors nl s).
+Proof. exact collect_keys. Qed.
+Print Assumptions C05_sm_collect_keys.
+
+(* the number of freed nodes (the return value of Manager::gc for static terminals) = the
+   number of stored nodes that no owned edge reaches *)
+Theorem C05_sm_collect_count : forall k terms nl s, CInv k terms nl s ->
+  length (cn s) = length (cn (collect k terms nl s)) + length (garbage nl s) /\
+  collected k terms nl s = length (garbage nl s).
+Proof. exact collect_count. Qed.
+Print Assumptions C05_sm_collect_count.
+
+(* the lifted table is the snapshot's node map; reachability from an owned edge of the lifted
+   state is [reachable] (the relation of C05_no_dead_reachable) from handles + extra owners *)
+Theorem C05_gc_snap_lift : forall s extra id,
+  cfind (cn (of_snap s extra)) id = option_map to_c (find_node s id) /\
+  (reach_own (of_snap s extra) id <-> reachable s (handle_refs s ++ map eref extra) (RN id)).
+Proof. intros s extra id. exact (conj (cfind_of_snap s extra id) (reach_own_of_snap s extra id)). Qed.
+Print Assumptions C05_gc_snap_lift.
+
+(* on a snapshot that passes the executable hypothesis: a node is stored after the collection iff
+   it was stored and is reachable from a handle or an extra owner; survivors keep level and
+   children; the owners are untouched *)
+Theorem C05_gc_snap_exact : forall s extra id,
+  cinv_b (s_kind s) (s_terms s) (nlevels s) (of_snap s extra) = true ->
+  let s' := collect (s_kind s) (s_terms s) (nlevels s) (of_snap s extra) in
+  ((exists nd', cfind (cn s') id = Some nd') <->
+   (exists nd, find_node s id = Some nd) /\ reachable s (handle_refs s ++ map eref extra) (RN id)) /\
+  (forall nd', cfind (cn s') id = Some nd' ->
+     exists nd, find_node s id = Some nd /\ cl nd' = nlevel nd /\ cch nd' = nchildren nd) /\
+  cown s' = cown (of_snap s extra).
+Proof. exact gc_snap_exact. Qed.
+Print Assumptions C05_gc_snap_exact.
+
+(* gc()'s return value on such a snapshot = the number of stored, unreachable nodes *)
+Theorem C05_gc_snap_count : forall s extra,
+  cinv_b (s_kind s) (s_terms s) (nlevels s) (of_snap s extra) = true ->
+  collected (s_kind s) (s_terms s) (nlevels s) (of_snap s extra) =
+  length (garbage (nlevels s) (of_snap s extra)) /\
+  forall id, In id (garbage (nlevels s) (of_snap s extra)) <->
+    (exists nd, find_node s id = Some nd) /\ ~ reachable s (handle_refs s ++ map eref extra) (RN id).
+Proof. exact gc_snap_count. Qed.
+Print Assumptions C05_gc_snap_count.
+
+(* non-vacuity: a snapshot with a dead chain of two nodes and one handle *)
+Theorem C05_gc_snap_example :
+  cinv_b KBdd (s_terms gc_snap_ex) (nlevels gc_snap_ex) (of_snap gc_snap_ex []) = true /\
+  collected KBdd (s_terms gc_snap_ex) (nlevels gc_snap_ex) (of_snap gc_snap_ex []) = 2 /\
+  garbage (nlevels gc_snap_ex) (of_snap gc_snap_ex []) = [1%positive; 3%positive] /\
+  cn (collect KBdd (s_terms gc_snap_ex) (nlevels gc_snap_ex) (of_snap gc_snap_ex [])) =
+    [(2%positive, mkC 1 [mkEdge (RT 0%N) false; mkEdge (RT 1%N) false] 1%N)].
+Proof. exact gc_snap_example. Qed.
+Print Assumptions C05_gc_snap_example.
